@@ -23,6 +23,7 @@ import ast
 from ..core import (AnalysisError, call_name, const_str, dotted, find_calls,
                     is_self_attr, kwarg, last_attr, names_in, short, txt,
                     walk)
+from ..normalize import expand_locals, inline_helpers
 
 ASSUMPTIONS = [
     "NOT decided: value equality of cached and uncached results for "
@@ -43,7 +44,8 @@ CORE = "dclab/rtdc_dataset/core.py"
 
 
 def r171(ctx, repo):
-    call = repo.func(CA, "Cache.__call__")
+    call = inline_helpers(repo, CA, repo.func(CA, "Cache.__call__"),
+                          keep=("_update_hash",))
     va = call.args.vararg.arg if call.args.vararg else None
     kw = call.args.kwarg.arg if call.args.kwarg else None
     if not va or not kw:
@@ -190,11 +192,11 @@ def r172(ctx, repo):
                f"the array {why} is not part of the key: arguments that "
                f"differ only in {why} share an entry", node=nd,
                label=f"array key covers {why}")
-    ok = any(("view" in txt(c) or "tobytes" in txt(c)) for c in fed)
+    ok = ("view(" in reach or "tobytes(" in reach) and arg in reach
     ctx.ob("R17.2", ok, "the array bytes are part of the key" if ok else
            "the array bytes are not hashed", node=nd,
            label="array key covers bytes")
-    contiguous = "ascontiguousarray" in body_txt or "tobytes" in body_txt
+    contiguous = "ascontiguousarray" in reach or "tobytes(" in reach
     ctx.ob("R17.2", contiguous, "non-contiguous views are hashed by content"
            if contiguous else "non-contiguous views cannot be hashed "
            "(view() raises)", node=nd, label="array layout independent")
@@ -216,14 +218,16 @@ def r172(ctx, repo):
     # list branch recurses over all items
     lst = [n for n in ast.walk(ast.Module(body=rest, type_ignores=[]))
            if isinstance(n, ast.If) and "list" in txt(n.test)]
-    ok = bool(lst) and "_update_hash" in " ".join(txt(s) for s in lst[0].body)
+    ok = bool(lst) and "_update_hash" in " ".join(
+        txt(s) for s in lst[0].body)
     ctx.ob("R17.2", ok, "list arguments are hashed element-wise" if ok else
            "list arguments are not hashed element-wise", node=uh,
            label="list recursion", nontrivial=False)
 
 
 def r173(ctx, repo):
-    call = repo.func(CA, "Cache.__call__")
+    call = inline_helpers(repo, CA, repo.func(CA, "Cache.__call__"),
+                          keep=("_update_hash",))
     ins_c = [n for n in walk(call) if isinstance(n, ast.Assign)
              and isinstance(n.targets[0], ast.Subscript)
              and "_cache" in txt(n.targets[0].value)]
@@ -308,6 +312,27 @@ def r174(ctx, repo):
     st = c
     while not isinstance(st, ast.stmt):
         st = st.parent
+    # the cached result may first be bound to a local; that local may only
+    # be copied into a subscript of another array (never returned / aliased)
+    if isinstance(st, ast.Assign) and st.value is c and len(
+            st.targets) == 1 and isinstance(st.targets[0], ast.Name):
+        tmp = st.targets[0].id
+        uses = [n for n in walk(inner) if isinstance(n, ast.Name)
+                and n.id == tmp and isinstance(n.ctx, ast.Load)]
+        stores = []
+        other = []
+        for u in uses:
+            ust = u
+            while not isinstance(ust, ast.stmt):
+                ust = ust.parent
+            if isinstance(ust, ast.Assign) and ust.value is u and isinstance(
+                    ust.targets[0], ast.Subscript):
+                stores.append(ust)
+            else:
+                other.append(ust)
+        if len(stores) == 1 and not other:
+            st = stores[0]
+            c = st.value
     ok = isinstance(st, ast.Assign) and isinstance(
         st.targets[0], ast.Subscript) and st.value is c
     tgt = txt(st.targets[0].value) if ok else None
@@ -327,15 +352,17 @@ def r174(ctx, repo):
            "the nan/inf wrapper returns (part of) the shared cached array",
            node=st, label="wrapper copies")
     # invalid inputs are removed with the same mask on x and y
+    evp = [a.arg for a in inner.args.args[:2]]
     ev = [n for n in walk(inner) if isinstance(n, ast.Assign) and isinstance(
-        n.value, ast.Subscript) and isinstance(n.value.slice, ast.UnaryOp)]
-    masks = {txt(n.value.slice) for n in ev if "events" in txt(n.value.value)}
-    ok = len(masks) == 1
+        n.value, ast.Subscript) and txt(n.value.value) in evp]
+    masks = {expand_locals(inner, n.value.slice) for n in ev}
+    ok = len(masks) == 1 and len(ev) == 2
     ctx.ob("R17.4", ok, "x and y events are purged with the same mask" if ok
            else "x and y events are purged with different masks",
            node=inner, label="same purge mask", nontrivial=False)
     # (iii) downsample_grid through the dataset interface
-    gds = repo.func(CORE, "RTDCBase.get_downsampled_scatter")
+    gds = inline_helpers(repo, CORE, repo.func(
+        CORE, "RTDCBase.get_downsampled_scatter"))
     dcalls = [c for c in find_calls(gds, attr="downsample_grid")]
     if len(dcalls) != 1:
         raise AnalysisError("get_downsampled_scatter: downsample_grid call "
@@ -655,6 +682,18 @@ MUTANTS = [
      ("                cont = self.contours[idx_q]\n",
       "                cont = self.contours[idx_q]\n"
       "                del self.indices[idx_q]\n"), "R17.6"),
+    ("wrapper: local holding the cached result is returned", KDE,
+     ("        density[~bad_out] = kde_method(ev_x, ev_y,\n"
+      "                                       xo, yo,\n"
+      "                                       *args, **kwargs)\n"
+      "        density[bad_out] = np.nan\n        return density\n",
+      "        valid_density = kde_method(ev_x, ev_y,\n"
+      "                                   xo, yo,\n"
+      "                                   *args, **kwargs)\n"
+      "        if not np.any(bad_out):\n            return valid_density\n"
+      "        density[~bad_out] = valid_density\n"
+      "        density[bad_out] = np.nan\n        return density\n"),
+     "R17.4"),
     ("memoised function reads module table", KDE,
      ("    if bins is None:\n        bins = (max(5, bin_num_doane(events_x)),",
       "    if bins is None and methods:\n"
@@ -662,6 +701,45 @@ MUTANTS = [
 ]
 
 TWINS = [
+    ("wrapper: cached result through a local (refactor C17/5)", KDE,
+     ("        density[~bad_out] = kde_method(ev_x, ev_y,\n"
+      "                                       xo, yo,\n"
+      "                                       *args, **kwargs)\n",
+      "        valid_density = kde_method(ev_x, ev_y,\n"
+      "                                   xo, yo,\n"
+      "                                   *args, **kwargs)\n"
+      "        density[~bad_out] = valid_density\n")),
+    ("wrapper: purge mask bound once (refactor C12/5)", KDE,
+     ("        ev_x = events_x[~bad_in]\n        ev_y = events_y[~bad_in]\n",
+      "        valid_in = ~bad_in\n        ev_x = events_x[valid_in]\n"
+      "        ev_y = events_y[valid_in]\n")),
+    ("array bytes through locals (refactor C17/2)", CA,
+     ("            self.ahash.update(np.ascontiguousarray(arg).view("
+      "np.uint8))\n",
+      "            contiguous = np.ascontiguousarray(arg)\n"
+      "            raw_bytes = contiguous.view(np.uint8)\n"
+      "            self.ahash.update(raw_bytes)\n")),
+    ("key construction extracted (refactor C17/3)", CA,
+     [("        ref = self.ahash.hexdigest()\n\n        if ref in",
+       "        return self.ahash.hexdigest()\n\n"
+       "    def __call__(self, *args, **kwargs):\n"
+       "        ref = self._compute_key(args, kwargs)\n\n        if ref in"),
+      ("    def __call__(self, *args, **kwargs):\n"
+       "        self.ahash = hashlib.md5()",
+       "    def _compute_key(self, args, kwargs):\n"
+       "        self.ahash = hashlib.md5()")]),
+    ("dataset mask built in a helper (refactor C16/4)", CORE,
+     [("            mask = np.zeros(len(self), dtype=bool)\n"
+       "            mids = np.where(self.filter.all)[0]\n"
+       "            mask[mids] = idx\n",
+       "            mask = self._mask_to_dataset(idx)\n"),
+      ("    def get_kde_contour(self,",
+       "    def _mask_to_dataset(self, idx):\n"
+       "        mask = np.zeros(len(self), dtype=bool)\n"
+       "        mids = np.where(self.filter.all)[0]\n"
+       "        mask[mids] = idx\n"
+       "        return mask\n\n"
+       "    def get_kde_contour(self,")]),
     ("hit path moves the entry in both deques", CO,
      ("                cont = self.contours[idx_q]\n",
       "                cont = self.contours[idx_q]\n"
